@@ -564,6 +564,59 @@ func init() {
 		return nil
 	}
 
+	// ---- sync.Map: a per-path association list keyed by interface values (keys compared with ==) ----
+	anyT := types.NewInterfaceType(nil, nil)
+	smFind := func(e *Exec, fr *frame, p Ptr, key Value) int {
+		for i, kv := range e.path.syncMaps[p.p] {
+			if e.truth(e.equalValues(anyT, kv[0], key), fr) {
+				return i
+			}
+		}
+		return -1
+	}
+	intrinsics["(*sync.Map).Load"] = func(e *Exec, fr *frame, args []Value) Value {
+		p := args[0].(Ptr)
+		if i := smFind(e, fr, p, args[1]); i >= 0 {
+			return Tuple{e.path.syncMaps[p.p][i][1], true}
+		}
+		return Tuple{Iface{}, false}
+	}
+	intrinsics["(*sync.Map).Store"] = func(e *Exec, fr *frame, args []Value) Value {
+		p := args[0].(Ptr)
+		if e.path.syncMaps == nil {
+			e.path.syncMaps = map[*Value][][2]Value{}
+		}
+		if i := smFind(e, fr, p, args[1]); i >= 0 {
+			e.path.syncMaps[p.p][i][1] = args[2]
+			return nil
+		}
+		e.path.syncMaps[p.p] = append(e.path.syncMaps[p.p], [2]Value{args[1], args[2]})
+		return nil
+	}
+	intrinsics["(*sync.Map).LoadOrStore"] = func(e *Exec, fr *frame, args []Value) Value {
+		p := args[0].(Ptr)
+		if i := smFind(e, fr, p, args[1]); i >= 0 {
+			return Tuple{e.path.syncMaps[p.p][i][1], true}
+		}
+		if e.path.syncMaps == nil {
+			e.path.syncMaps = map[*Value][][2]Value{}
+		}
+		e.path.syncMaps[p.p] = append(e.path.syncMaps[p.p], [2]Value{args[1], args[2]})
+		return Tuple{args[2], false}
+	}
+	intrinsics["(*sync.Map).Delete"] = func(e *Exec, fr *frame, args []Value) Value {
+		p := args[0].(Ptr)
+		if i := smFind(e, fr, p, args[1]); i >= 0 {
+			l := e.path.syncMaps[p.p]
+			e.path.syncMaps[p.p] = append(append([][2]Value{}, l[:i]...), l[i+1:]...)
+		}
+		return nil
+	}
+	// sync.Mutex / RWMutex: single-threaded paths, locks are no-ops
+	for _, n := range []string{"(*sync.Mutex).Lock", "(*sync.Mutex).Unlock", "(*sync.RWMutex).Lock", "(*sync.RWMutex).Unlock", "(*sync.RWMutex).RLock", "(*sync.RWMutex).RUnlock"} {
+		intrinsics[n] = func(e *Exec, _ *frame, args []Value) Value { return nil }
+	}
+
 	// ---- runtime/debug ----
 	intrinsics["runtime/debug.Stack"] = func(e *Exec, _ *frame, args []Value) Value {
 		s := mkStr("<stack elided by gosym>")
